@@ -6,7 +6,7 @@ CFG = dict(
         extract="Ex_C17",
         level_text="For every entry point (ValidateStrListBytes, ValidateBlockBytes, StrListDecoder.Read/ReadBytes/Decode-on-"
                    "validated, ReadBlockFrom, Table.ReadFrom, BlockIndex.ReadFrom, Commit.ReadFrom, TableProfile.ReadFrom, "
-                   "decodeObjTypeAndLen, ReadObject, whole packfile, ReadPktLine, uint/float lists) theorems C17_* : on EVERY "
+                   "decodeObjTypeAndLen, ReadObject, whole packfile, ReadPktLine, uint/float lists, and the reuse-mode New{StrList,UintList,FloatList}Decoder(true) variants) theorems C17_* : on EVERY "
                    "byte string the transliterated decoder returns a value or an error - never the model's Panic outcome, "
                    "which every Go index/slice/BigEndian read can produce -, never exhausts a loop fuel of |b|+2, and allocates "
                    "<= c*|b| + k on the model's allocation meter with explicit (c, k) per decoder; C17_receive_total: "
@@ -23,10 +23,10 @@ CFG = dict(
                    "theorems for every such function; dprof profiling and IndexBlock are not modelled beyond the shape checks "
                    "IndexTable performs before calling them). Well-formedness (bytes < 256) is a "
                    "premise of the robustness theorems.",
-        rule="fixed witnesses of the repaired defects; Receive: 12 (quick) / 150 (thorough) consistent worlds (blocks, tables "
+        rule="fixed witnesses of the repaired defects incl. counts 256/257/1024/1025/2^23 for both decoder modes; every cut 0..len of 4 valid commits (0..3 parents) and 4 valid tables with the oracle rule that only a complete encoding may be accepted; Receive: 12 (quick) / 150 (thorough) consistent worlds (blocks, tables "
              "with correct index sums, commit chain) sent valid and with one object dropped / moved / bit-flipped / truncated / "
              "retyped / replaced by an invalid block / duplicated / interleaved with a type-0 object, plus raw truncation and "
-             "bit flips of the stream; decoders: per entry point 2 (quick) / 8 (thorough) valid encodings written by the real "
+             "bit flips of the stream; decoders: per entry point (21 incl. reuse-mode decoders) 2 (quick) / 8 (thorough) valid encodings written by the real "
              "encoders, each truncated at EVERY offset, every bit of the first 24 bytes flipped plus 16 random bit flips, "
              "counts/lengths overwritten at every offset of the first 48 bytes with ffffffff 7fffffff 80000000 00010000 "
              "00000401 ffff, trailing garbage, every label letter altered; all byte strings of length <= 1 for every entry "
